@@ -40,6 +40,15 @@ struct ThreadDriver : vrt::Driver {
   bool want_mgr = false;
 
   static ThreadDriver *self;
+  std::weak_ptr<size_t> own_hb[kMaxT];
+
+  static void
+  OnExitOp(const void *, int)
+  {
+    int t = vrt::Self();
+    if (t <= 0 || t >= kMaxT || self == nullptr) return;
+    vrt::Log("{\"e\":\"exitop\",\"t\":%d,\"x\":%d}", t, self->own_hb[t].expired());
+  }
 
   static void
   OnPoint(const char *name, const void *obj)
@@ -68,6 +77,7 @@ struct ThreadDriver : vrt::Driver {
     self = this;
     dbgroup::verif::g_point_handler = &OnPoint;
     dbgroup::verif::g_hash_handler = &OnHash;
+    vrt::g_exit_op_hook = &OnExitOp;
     for (int t = 0; t < kMaxT; ++t) hashes[t] = static_cast<size_t>(t);
     for (const auto &par : p.params) {
       if (par.rfind("hash=", 0) == 0) {
@@ -113,6 +123,7 @@ struct ThreadDriver : vrt::Driver {
     if (k == "ID") {
       vrt::Log("{\"e\":\"idcall\",\"t\":%d}", t);
       auto id = static_cast<long>(IDManager::GetThreadID());
+      own_hb[t] = IDManager::GetHeartBeat();
       int stale = 0;
       for (auto &s : saved)
         if (s.used && s.id == id && s.owner != t && !s.hb.expired()) ++stale;
